@@ -908,11 +908,17 @@ func runTsLife(tier string, seed int64, model string, replay string) *corr.Resul
 	// their timing is not disturbed by the process churn of the isolation batches; then the iso
 	// batches through a small pool
 	var wg sync.WaitGroup
+	dlSem := make(chan struct{}, 8) // at most 8 deadline batches (≈ 70 helper processes) at a time
 	for _, j := range jobs {
 		if j.iso == nil {
 			j := j
 			wg.Add(1)
-			go func() { defer wg.Done(); runWorker(j, top) }()
+			go func() {
+				defer wg.Done()
+				dlSem <- struct{}{}
+				defer func() { <-dlSem }()
+				runWorker(j, top)
+			}()
 		}
 	}
 	wg.Wait()
